@@ -574,8 +574,46 @@ def rule_invalidation_tables(check, rule):
                 else:
                     check.violation(rule, site_of(fi, e.node), 'taint is applied under %s' % ' & '.join(show_lit(l) for l in p.lits)[:160], key=key)
     if not taint_seen:
-        check.violation(rule, site_of(fi, fi.node), 'process_Call no longer taints an argument whose method is called', key='process_Call|taint',
-                        witness='kwargs.pop("x"); inner(*args, **kwargs)')
+        # the marking may have been moved into a helper of the namespace class: `self.namespace.<helper>(name, node)`
+        ns_cls = repo.cls(AF + ':Namespace', required=False)
+        helper = None
+        hcall = None
+        if ns_cls is not None:
+            for n_ in ast.walk(fi.node):
+                if isinstance(n_, ast.Call) and isinstance(n_.func, ast.Attribute) and n_.func.attr in ns_cls.methods \
+                        and norm(n_.func.value).endswith('.namespace'):
+                    m_ = ns_cls.methods[n_.func.attr]
+                    if any(isinstance(x, ast.Attribute) and x.attr == 'tainted' and isinstance(x.ctx, ast.Store) for x in ast.walk(m_.node)):
+                        helper, hcall = m_, n_
+        if helper is None:
+            check.violation(rule, site_of(fi, fi.node), 'process_Call no longer taints an argument whose method is called', key='process_Call|taint',
+                            witness='kwargs.pop("x"); inner(*args, **kwargs)')
+        else:
+            check.analysed(helper)
+            hself = helper.params()[0][0]
+            stores = [x for x in ast.walk(helper.node) if isinstance(x, ast.Attribute) and x.attr == 'tainted' and isinstance(x.ctx, ast.Store)]
+            direct = [x for x in stores if isinstance(x.value, ast.Subscript) and isinstance(x.value.value, ast.Attribute)
+                      and x.value.value.attr == 'names']
+            walking = [x for x in stores if isinstance(x.value, ast.Subscript) and isinstance(x.value.value, ast.Name) and x.value.value.id == hself]
+            # guards of the call site inside process_Call
+            t = hcall
+            guards = []
+            while t is not None and t is not fi.node:
+                par = getattr(t, '_parent', None)
+                if isinstance(par, ast.If) and t in par.body:
+                    guards.append(norm(par.test))
+                t = par
+            ok_guard = any('Arg' in g_ for g_ in guards)
+            if walking and not direct and ok_guard:
+                check.holds(rule, site_of(fi, hcall), 'a method call on an argument taints it through Namespace.%s, which looks the name up along '
+                            'the scope chain' % helper.name, key='process_Call|taint')
+            elif direct:
+                check.violation(rule, site_of(helper, direct[0]), 'Namespace.%s marks the taint on `<scope>.names[name]`, a single scope\'s own table: '
+                                'for an argument of an enclosing function used inside a nested def/lambda the name is not there (KeyError out of '
+                                'retrieval) and its taint is never recorded' % helper.name, key='process_Call|taint',
+                                witness='def f(self, *a, **k): (lambda: self.notify())(); return g(*a, **k) -> sigtools.signature(f) raises KeyError')
+            else:
+                check.inconclusive(rule, site_of(fi, hcall), 'taint helper Namespace.%s not understood' % helper.name, key='process_Call|taint')
     # argument values: resolve_name(arg) must visit the expression (ro must not be set) so that handing
     # *args/**kwargs to other code invalidates it
     for node in ast.walk(fi.node):
@@ -847,3 +885,36 @@ def rule_resolution_order(check, rule):
                 check.violation(rule, st, '%s: a miss raises %s instead of UnresolvableName' % (cur, en), key=key,
                                 witness='a missing global must fall back, not escape as KeyError')
     check.floor(rule, 'paths of resolve_name', n, 8)
+
+
+def rule_scope_chain_lookups(check, rule):
+    """C07.R7: names of enclosing scopes live in the parent namespaces.  A read of `<ns>.names[key]` that is not under a
+    KeyError handler (the one in Namespace.__getitem__ walks to the parent) raises KeyError for every name that is bound
+    in an outer scope only -- out of sigtools.signature() for functions inspect handles.  Zero-expected elsewhere."""
+    repo = check.repo
+    m = repo.module(AF)
+    n = 0
+    for fi in repo.all_funcs():
+        if fi.module.name != AF:
+            continue
+        for x in ast.walk(fi.node):
+            if isinstance(x, ast.Subscript) and isinstance(x.ctx, ast.Load) and isinstance(x.value, ast.Attribute) and x.value.attr == 'names':
+                n += 1
+                t = x
+                handled = False
+                while t is not None and t is not fi.node:
+                    par = getattr(t, '_parent', None)
+                    if isinstance(par, ast.Try) and t in par.body:
+                        for h in par.handlers:
+                            names = [norm(y) for y in (h.type.elts if isinstance(h.type, ast.Tuple) else [h.type])] if h.type is not None else ['BaseException']
+                            if any(y in ('KeyError', 'LookupError', 'Exception', 'BaseException') for y in names):
+                                handled = True
+                    t = par
+                key = '%s|names-subscript|%s' % (fi.key, norm(x))
+                if handled:
+                    check.holds(rule, site_of(fi, x), '%s is read under a KeyError handler (falls back to the enclosing scope)' % norm(x), key=key)
+                else:
+                    check.violation(rule, site_of(fi, x), '%s reads one scope\'s own table without a KeyError handler: a name bound only in an '
+                                    'enclosing scope raises KeyError out of retrieval' % norm(x), key=key,
+                                    witness='a nested def/lambda calling a method on a parameter of the enclosing function')
+    check.floor(rule, 'reads of a namespace table by subscript', n, 1)
